@@ -75,7 +75,7 @@ type FDriver struct {
 // poll order seed of rewritten select statements, and the stall plan.
 func NewFDriver(t *tape.Tape) *FDriver {
 	sch := NewFScheduler()
-	d := &FDriver{S: sch, T: t, Preempt: []int{4, 8, 20}[t.Draw(3)], MaxHolds: 12}
+	d := &FDriver{S: sch, T: t, Preempt: []int{4, 8, 20, 100, 1000}[t.Draw(5)], MaxHolds: 12}
 	sch.SetSelectSeed(uint64(t.Draw(1 << 20)))
 	d.HoldMod = []int{0, 30, 100, 300}[t.Draw(4)]
 	d.HoldSeed = uint64(t.Draw(1 << 20))
